@@ -774,3 +774,105 @@ def c17_state_set_from_arms(F, rep):
     # the checks themselves: start state and targets are tested with contains(), failure ends in FsmUndefinedStateError
     und = [s for s in find(body, "struct") if s[1].endswith("FsmUndefinedStateError")]
     rep.floor("C17-R7", "FsmUndefinedStateError constructions in the validator", len(und), 2)
+
+
+# ---------------------------------------------------------------- subscript operands keep their position (C03-R7 / C04-R7)
+def subscript_operand_positions(F, rep, rule, fn_rx, floor):
+    """In every `match &subs[..] { [A(i1), B(i2)] => .. }` arm, the j-th index operand pushed to the kernel compiler's input is evaluated from the j-th subscript."""
+    rep.rule(rule, "index operands keep their position: in each arm of the subscript dispatcher the j-th index value pushed to the compiler input is evaluated from `subs[j]` "
+                   "(or is Value::IndexAll exactly where the j-th subscript is `:`) - evaluating one subscript twice, or exchanging them, addresses another block")
+    n = 0
+    for it in F.syn("mech_interpreter.lib"):
+        if it["k"] != "fn" or not re.search(fn_rx, it["name"]) or not it.get("body"):
+            continue
+        for m in find(it["body"], "match"):
+            if not re.search(r"subs\s*\[\s*\.\.\s*\]|subs\[\.\.\]", render(m[1]).replace(" ", "")):
+                continue
+            for arm in m[2]:
+                p = arm[0]
+                if p[0] != "pslice":
+                    continue
+                kinds = []
+                binders = {}
+                for j, sp in enumerate(p[1]):
+                    t = render_pat(sp)
+                    mm = re.search(r"Subscript::(\w+)", t)
+                    kinds.append(mm.group(1) if mm else "?")
+                    for b in find(sp, "pident"):
+                        binders[b[1]] = j
+                body = arm[2][1] if is_node(arm[2]) and arm[2][0] == "block" else [["expr", arm[2]]]
+
+                def cls(e, env):
+                    """provenance class of an expression"""
+                    if not is_node(e):
+                        return None
+                    for x in walk(e):
+                        if x[0] == "index" and is_node(x[1]) and x[1][0] == "path" and x[1][1] == "subs" and is_node(x[2]) and x[2][0] == "int":
+                            return ("IDX", int(re.sub(r"\D.*$", "", str(x[2][1]))))
+                    for x in walk(e):
+                        if x[0] == "path":
+                            if x[1].endswith("IndexAll"):
+                                return ("ALL",)
+                            if x[1] in binders:
+                                return ("IDX", binders[x[1]])
+                            if x[1] in env and env[x[1]] is not None:
+                                return env[x[1]]
+                    for x in walk(e):
+                        if x[0] == "path" and x[1] in ("source", "val", "sink", "value"):
+                            return ("SRC",)
+                    return None
+
+                def seqs(stmts, env, acc):
+                    """all push sequences (lists of classes) over the paths through stmts"""
+                    accs = [list(acc)]
+                    for st in stmts:
+                        if st[0] == "let" and len(st) > 2 and st[2] is not None:
+                            is_pop = any(x[0] == "mcall" and x[2] == "pop" and render(x[1]) == "fxn_input" for x in walk(st[2]))
+                            names = [b[1] for b in find(st[1], "pident")]
+                            if is_pop:
+                                for a in accs:
+                                    v = a.pop() if a else None
+                                    for nm in names:
+                                        env[nm] = v
+                            else:
+                                c = cls(st[2], env)
+                                for nm in names:
+                                    env[nm] = c
+                        elif st[0] == "expr" and is_node(st[1]):
+                            e = st[1]
+                            if e[0] == "mcall" and e[2] == "push" and render(e[1]) == "fxn_input" and e[4]:
+                                c = cls(e[4][0], env)
+                                for a in accs:
+                                    a.append(c)
+                            elif e[0] == "if":
+                                new = []
+                                for a in accs:
+                                    new += seqs(e[2], dict(env), a)
+                                    if e[3] is not None:
+                                        eb = e[3][1] if e[3][0] in ("block",) else [["expr", e[3]]]
+                                        new += seqs(eb, dict(env), a)
+                                    else:
+                                        new.append(list(a))
+                                accs = new
+                            elif e[0] == "match":
+                                new = []
+                                for a in accs:
+                                    for ar in e[2]:
+                                        ab = ar[2][1] if is_node(ar[2]) and ar[2][0] == "block" else [["expr", ar[2]]]
+                                        new += seqs(ab, dict(env), a)
+                                accs = new or accs
+                    return accs
+                all_seqs = seqs(body, {}, [])
+                uniq = {tuple(c for c in s_ if c is not None and c[0] in ("IDX", "ALL")) for s_ in all_seqs}
+                uniq = {u for u in uniq if u}
+                if not uniq:
+                    continue
+                n += 1
+                want = tuple(("ALL",) if k == "All" else ("IDX", j) for j, k in enumerate(kinds))
+                bad = sorted(u for u in uniq if u != want)
+                key = "%s:[%s]" % (it["name"], ",".join(kinds))
+                show = lambda u: [("subs[%d]" % c[1]) if c[0] == "IDX" else ":" for c in u]
+                rep.check(not bad, rule, key if not bad else key + ":operands=" + "/".join(show(bad[0])),
+                          "%s, arm [%s]: the index operands handed to the kernel compiler are %s, expected %s - the assignment / read addresses rows and columns taken from the wrong subscript" % (
+                              it["name"], ", ".join(kinds), show(bad[0]) if bad else "", show(want)), "%s (mech_interpreter.lib)" % it["name"], sample={"fn": it["name"], "arm": kinds, "operands": [show(u) for u in sorted(uniq)]})
+    rep.floor(rule, "subscript dispatcher arms with index operands", n, floor)
